@@ -67,6 +67,8 @@ type Gen struct {
 	callBias bool
 	// shadowBias: most declarations reuse a visible name (C08 profile)
 	shadowBias bool
+	// stringBias: prefer the string templates (C13 profile)
+	stringBias bool
 }
 
 func NewGen(r *rand.Rand, o GenOpts) *Gen { return &Gen{r: r, o: o} }
@@ -716,6 +718,11 @@ func (g *Gen) stmt(depth int) []*S {
 	x := g.r.Intn(100)
 	if g.ctrlBias && depth > 0 && g.r.Intn(100) < 55 {
 		x = 56 + g.r.Intn(37) // if / loops / switch / break / continue / return
+	}
+	if g.stringBias && g.r.Intn(100) < 40 {
+		if out := g.stringTemplate(depth); out != nil {
+			return out
+		}
 	}
 	if g.callBias && g.r.Intn(100) < 45 {
 		switch g.r.Intn(4) {
